@@ -144,6 +144,12 @@ class Runner:
                 if tables["term"][s] and rng.random() < 0.5:
                     tables["trunc"][s] = True
         ptab = gen_policy_tables(rng, NS=self.NS, kind=self.kind, comps=self.comps, oob=0.6)
+        if rng.random() < 0.4:
+            # the critic is UNDEFINED (infinite) on terminal observations nobody ever acts on or bootstraps from: a correct collector
+            # never lets such a value reach a stored quantity (a "branchless" 0 * V would turn it into NaN)
+            for s_ in range(len(tables["term"])):
+                if tables["term"][s_] and s_ not in tables["init"] and rng.random() < 0.6:
+                    ptab["values"][s_] = rng.choice([float("inf"), float("-inf")])
         n_iter = rng.randint(1, 4)
         gamma = rng.choice([0.5, 0.75, 0.9, 0.99, 1.0])
         lam = rng.choice([0.0, 1.0, 0.5, 0.9, 0.95])
